@@ -10,7 +10,11 @@ use std::collections::BTreeMap;
 pub type SM = BTreeMap<(usize, usize), Rat>;
 
 pub fn clone_sparse(s: &Sparse<Rat>) -> Sparse<Rat> {
-    Sparse { rows: s.rows, cols: s.cols, nonzero: s.nonzero, val: s.val.clone(), row_index: s.row_index.clone(), col_start: s.col_start.clone() }
+    // through the public constructor, not a struct literal: a change that adds a private field must still compile against the harness
+    // (round 15). Only states that passed the well-formedness check are cloned; hidden state is the business of the clone-free exploration
+    let c = Sparse::from_vecs(s.rows, s.cols, s.val.clone(), s.row_index.clone(), s.col_start.clone());
+    debug_assert!(c.nonzero == s.nonzero);
+    c
 }
 pub fn dense_of(rows: usize, cols: usize, m: &SM) -> M {
     let mut d = model::zeros(rows, cols);
